@@ -58,7 +58,7 @@ func writeEvidence(b builds, cfg tierCfg, oi oracleInfo, agg *simAgg, eq, cmp in
 	cov := map[string]any{
 		"evaluations":         evals,
 		"distinct_nontrivial": dn,
-		"rule": "evaluation = one simulated run (a generated workload of 1-8 caller tasks x 1-6 calls each, one seeded schedule, one seeded fault plan) or one call of a sequential-reference pass. " +
+		"rule": "evaluation = one simulated run (a generated workload of 1-8 caller tasks (rarely a crowd of 17-64) x 1-6 calls each, one seeded schedule, one seeded fault plan) or one call of a sequential-reference pass. " +
 			"A run is non-trivial iff >=2 tasks were inside a library call at the same time and >=1 preemptive switch happened (for the no-preemption policy 'seq': >=2 calls in a seeded order). " +
 			"Distinct = distinct 64-bit signatures of the run's event log (every switch with task/op/step-in-op/site, every fault event, every op begin/end with the hash of its outcome), counted by the driver over all processes of both builds.",
 		"samples":                      samples,
@@ -91,21 +91,24 @@ func writeEvidence(b builds, cfg tierCfg, oi oracleInfo, agg *simAgg, eq, cmp in
 		"sync_rewrites":                b.rep.Rewrites,
 		"api_functions":                b.rep.APIFuncs,
 		"corpus_calls":                 len(oi.corpus.Calls),
-		"corpus_calls_used":            agg.callsUsed,
+		"corpus_calls_used_in_simulated_runs": len(agg.usedCalls),
+		"corpus_calls_used_max_per_process":   agg.callsUsed,
 		"corpus_calls_over_step_bound": oi.dropped,
 		"corpus_calls_removed_because_they_crash_or_hang_even_alone": len(oi.excluded),
 		"oracle_batch_calls":               oi.batch,
 		"oracle_soak_calls_in_one_process": oi.soak,
 		"oracle_isolated_process_calls":    oi.iso,
 		"builds_equal_signature":           fmt.Sprintf("%d of %d (seed, process) pairs gave the identical run-signature chain in the -race and the plain build", eq, cmp),
-		"bounds": map[string]any{"max_tasks": 8, "max_ops_per_task": 6, "max_expression_bytes": 200, "max_steps_per_call": cfg.maxStep,
+		"bounds": map[string]any{"max_caller_tasks": 64, "usual_caller_tasks": "1-8", "max_ops_per_task": 6, "max_expression_bytes": 6000, "max_list_entries": 1100, "max_steps_per_call": cfg.maxStep,
 			"runs_per_process": cfg.runs, "processes_per_build": cfg.procs},
 		"components": map[string]string{
 			"spdxexp, spdxlicenses":        "REAL code: current /repo working tree, copied to a scratch dir and instrumented with yield points at check time",
 			"go standard library, GC":      "real, uninstrumented; automatic GC off during runs, collections only where the simulator injects them",
 			"caller goroutines":            "real goroutines, released one at a time by the simulator (choice of who runs: simulator PRNG only); hand-off invisible to the race detector",
 			"stdout/stderr":                "real fds 1/2 redirected to a capture file",
-			"clock, timers, network, disk": "do not exist in the library: nothing to stub",
+			"clock, timers":                "the pinned tree has none; when a tree under check uses time.Now/Sleep/After/Tick/Timer/Ticker/AfterFunc they are rewritten to the simulated clock (see sync_rewrites for what was rewritten in this run)",
+			"network, disk":                "do not exist in the library: nothing to stub",
+			"sync primitives, goroutines, channels, select": "the pinned tree has none; in a tree under check they are rewritten to simulator models (Mutex, RWMutex, Once, WaitGroup, Cond, go, chan, select), anything unmodelled switches the run to free-running goroutines under -race (mode = degraded)",
 			"sequential reference":         "the same tree, uninstrumented, one call at a time in fresh processes",
 			"stubs":                        "none",
 		},
@@ -130,7 +133,7 @@ func writeEvidence(b builds, cfg tierCfg, oi oracleInfo, agg *simAgg, eq, cmp in
 		"assumptions": []string{
 			"the Go standard library and the Go race detector are trusted (the detector reports no false positives)",
 			"purity is read as including aliasing: what a caller does to a slice it passed in (after the call) or got back cannot change later results; getters of spdxlicenses are in scope",
-			"'any number of goroutines' is sampled with 1..8 tasks; seeded sampling of schedules and histories, not a proof",
+			"'any number of goroutines' is sampled with 1..8 caller tasks, rarely 17..64; seeded sampling of schedules and histories, not a proof",
 			"map iteration order and race-build sync.Pool drops are outside the simulator's seams (0 map-range sites on this tree is re-measured on every run)",
 			"inputs that panic on this tree are treated as ordinary repeatable outcomes (C13 is silent about panics)",
 		},
